@@ -4,6 +4,7 @@ import (
 	"fmt"
 	"math"
 	"net"
+	"sync"
 
 	"github.com/xiam/to"
 )
@@ -11,6 +12,9 @@ import (
 type ConnChangeFunc func(conn net.Conn, c *Characteristic, newValue, oldValue interface{})
 type ChangeFunc func(c *Characteristic, newValue, oldValue interface{})
 type GetFunc func() interface{}
+
+// valueMutex serializes the updates of characteristic values.
+var valueMutex sync.Mutex
 
 // Characteristic is a HomeKit characteristic.
 type Characteristic struct {
@@ -136,12 +140,17 @@ func (c *Characteristic) updateValue(value interface{}, conn net.Conn, checkPerm
 		value = c.clampInt(value.(int))
 	}
 
+	// Comparing with and storing the value is one step: of two controllers which
+	// write the same new value at the same time only one changes the value.
+	valueMutex.Lock()
 	if c.Value == value && !c.updateOnSameValue {
+		valueMutex.Unlock()
 		return
 	}
 
 	// Ignore new values from remote when permissions don't allow write and checkPerms is true
 	if checkPerms && !c.IsWritable() {
+		valueMutex.Unlock()
 		return
 	}
 
@@ -149,6 +158,7 @@ func (c *Characteristic) updateValue(value interface{}, conn net.Conn, checkPerm
 	if c.IsReadable() {
 		c.Value = value
 	}
+	valueMutex.Unlock()
 
 	if conn != nil {
 		c.onValueUpdateFromConn(c.connValueUpdateFuncs, conn, value, old)
